@@ -51,6 +51,17 @@ IS_FINITE = "core::f64::<impl f64>::is_finite"
 IS_VALID = "TwoFloat::is_valid"     # is_finite(hi) && is_finite(lo) && no_overlap(hi, lo): rule R17; the link below is proved as R12v
 OPT_EQ = "<core::option::Option<T> as core::cmp::PartialEq>::eq"
 
+def mixed_eq(n):
+    """(method, TwoFloat is the left operand) for `TwoFloat == f64` in either order: the trait's methods by instantiation,
+    or the crate's impls by identity"""
+    m = re.match(r"^core::cmp::PartialEq::(eq|ne)<(TwoFloat,f64|f64,TwoFloat)>$", n)
+    if m:
+        return m.group(1), m.group(2).startswith("TwoFloat")
+    m = re.match(r"^<(TwoFloat|f64) as core::cmp::PartialEq<(f64|TwoFloat)>>::(eq|ne)$", n)
+    if m and m.group(1) != m.group(2):
+        return m.group(3), m.group(1) == "TwoFloat"
+    return None
+
 def pcmp_kind(name):
     """relation kind if the call name is a partial_cmp whose lt/le/gt/ge siblings derive from it"""
     if name == F64_PCMP:
@@ -93,6 +104,16 @@ def get_rel(env, a, b, kind, domain):
             if rh != "eq":
                 return rh
             return get_rel(env, mk("field", a, 1), mk("field", b, 1), "f64", REL4)
+    if kind in ("PartialOrd<TwoFloat,f64>", "PartialOrd<f64,TwoFloat>"):
+        # the mixed comparison: an invalid TwoFloat is unordered, a valid one compares its high word with the number and then its
+        # low word with zero (C06 / R12c)
+        x, c = (a, b) if kind == "PartialOrd<TwoFloat,f64>" else (b, a)
+        if not eval_bool(mk("call", IS_VALID, x), env):
+            return "un"
+        r = get_rel(env, mk("field", x, 0), c, "f64", REL4)
+        if r == "eq":
+            r = get_rel(env, mk("field", x, 1), mk("const", "f64", 0), "f64", REL4)
+        return r if kind == "PartialOrd<TwoFloat,f64>" else FLIP[r]
     v, sw = rel_var(a, b, kind)
     if a is b and kind in vg.INT_BITS:
         return "eq"
@@ -218,6 +239,13 @@ def eval_bool(c, env):
                 kind = "PartialOrd<" + targs
                 r = get_rel(env, c[2], c[3], kind, REL4)
                 return r in OPS[meth]
+        mq = mixed_eq(n) if len(c) == 4 else None
+        if mq:
+            # TwoFloat == f64 (either order) is hi == c && lo == 0 (C06 / R12c)
+            meth, tf_first = mq
+            x, k = (c[2], c[3]) if tf_first else (c[3], c[2])
+            r = get_rel(env, mk("field", x, 0), k, "f64", REL4) == "eq" and get_rel(env, mk("field", x, 1), mk("const", "f64", 0), "f64", REL4) == "eq"
+            return r if meth == "eq" else not r
         if n.startswith(RANGE_CONTAINS) and len(c) == 4 and tag(c[2]) == "call" and c[2][1].startswith(RANGE_NEW) and len(c[2]) == 4:
             # (lo..=hi).contains(&x)  is  lo <= x && x <= hi  with the PartialOrd impls of the two types
             m = re.match(r"^.*contains<(.*),(.*)>$", n)
@@ -255,6 +283,19 @@ def eval_bool(c, env):
             for i in (0, 1):
                 if env.val.get(("bool", mk("call", IS_NAN, mk("field", c[2], i)))) is True:
                     env.val[v] = False; return False
+            # a finite high word with a zero low word is a valid pair (no_overlap(a, 0) for finite a: C07 / R18)
+            hi_fin = lo_zero = False
+            for var, r in env.val.items():
+                if var[0] == "rel" and var[3] == "f64" and r == "eq":
+                    for w, k in ((var[1], var[2]), (var[2], var[1])):
+                        if tag(k) == "const" and tag(w) == "field" and w[1] is c[2]:
+                            kv = f64v(k)
+                            if w[2] == 0 and kv == kv and abs(kv) != float("inf"):
+                                hi_fin = True
+                            if w[2] == 1 and kv == 0:
+                                lo_zero = True
+            if hi_fin and lo_zero:
+                env.val[v] = True; return True
         raise Undetermined(v, (True, False))
     return env.val[v]
 
@@ -341,6 +382,13 @@ def expand_ordering_leaves(tree, flip=False):
             return canon(oc)
         if tag(v) == "call" and len(v) == 4 and pcmp_kind(v[1]):
             return ("rel", v[2], v[3], pcmp_kind(v[1]), {r: canon(r) for r in REL4})
+        # Some(o) with o taken out of a partial_cmp result (`Some(a.partial_cmp(b)?)`, an arm `Some(o) => Some(o)`): that result
+        if tag(v) == "agg" and v[1][0] == "adt" and v[1][3] == "Some" and len(v[2]) == 1:
+            o = v[2][0]
+            if tag(o) == "field" and o[2] == 0 and tag(o[1]) == "downcast" and o[1][2] == "Some":
+                c = o[1][1]
+                if tag(c) == "call" and len(c) == 4 and pcmp_kind(c[1]):
+                    return ("rel", c[2], c[3], pcmp_kind(c[1]), {r: canon(r) for r in REL4})
         return l
     return map_leaves(tree, f)
 
